@@ -48,6 +48,9 @@ func genOutcomes(t *rapid.T, nodes int, cfg SGenCfg, slowLeft *int) []Outcome {
 	perm := rapid.Permutation(seqInts(nodes)).Draw(t, "perm")
 	for _, j := range perm[:k] {
 		o := ERR
+		if rapid.IntRange(0, 2).Draw(t, "diskerr") == 0 {
+			o = DISKERR // (for a write: the replica's own disk write fails; otherwise like ERR)
+		}
 		if cfg.SlowFaults && *slowLeft > 0 && rapid.IntRange(0, 3).Draw(t, "slow") == 0 {
 			o = rapid.SampledFrom([]Outcome{STALL, DROP}).Draw(t, "slowkind")
 			*slowLeft--
